@@ -46,6 +46,10 @@ structure DState where
       the hand-written model; `some why` once an operation did not complete -/
   src : Bool := false
   srcStuck : Option String := none
+  /-- policies in which the definitions' `next` cells are null: the `decode` op stands for a process that
+      starts with the encoded data instead of running `update`, and `decode_dispatch_data` does not write
+      the `next` cells (known finding D15); an `update` fills them -/
+  nextNull : List String := []
   vars : List (String × VPtr) := []
   encoded : Option Emitted := none
   /-- oracle mode: the pointee class of each `virtual_ptr` variable -/
@@ -388,7 +392,7 @@ def step (d : DState) (tok : List String) : DState × List String :=
         let (s', out, _) := s.update d.rng
         let d := { (d.set s') with rng := [] }
         match out with
-        | .ok => (d, ["update ok"])
+        | .ok => ({ d with nextNull := d.nextNull.filter (fun n => some n != d.cur) }, ["update ok"])
         | .raised (.unknownClass id) =>
           if d.handlerReturns || s.cfg.err == .backward then ({ d with dead := true }, ["!signal 6"])
           else (d, [s!"update raised unknown_class {id}"])
@@ -437,7 +441,7 @@ def step (d : DState) (tok : List String) : DState × List String :=
                   (((s.classes.zip dec.vptrs).find? (fun (p : (Nat × ClassRec) × Option Int) => s.cfg.proj p.1.2.id == k && p.2.isSome)).bind (·.2)).getD 0
               s!"dclass {e.2.id} vp={vp}")
             let inst := dec.toInstalled
-            (d.set { s with inst := some inst },
+            ({ (d.set { s with inst := some inst }) with nextNull := d.nextNull ++ d.cur.toList },
              ["decode ok"] ++ recLines ++ [s!"dvtbls {fmtList w dec.vtbls}", s!"ddtbls {fmtList w dec.dtbls}"] ++
                (List.zipIdx c.methods).map (fun (m, mi) => s!"dss {m.key} {fmtNats ((dec.ss[mi]?).getD [])}"))
         | _, _ => (d, ["skipped: nothing encoded"])
@@ -476,6 +480,7 @@ def step (d : DState) (tok : List String) : DState × List String :=
               if c == "callnext" then
                 match out, s.compiled with
                 | .ran did, some cp =>
+                  if d.cur.any (d.nextNull.contains ·) then (d, [s!"ran {fmtNats [did]} next-null"]) else
                   match (List.zipIdx cp.methods).find? (fun e => e.1.key == key) with
                   | some (mc, mi) =>
                     let i := (mc.specs.findIdx? (fun sp => sp.1 == did)).getD 0
